@@ -30,7 +30,7 @@ def fix(results, cases):
             what = "noreturn" if isinstance(r, dict) and r.get("__noreturn__") else "raise"
             r = {"clauses": c["clauses"], "assumptions": c.get("assumptions", []), "limit": c.get("limit", 1),
                  "max_conflicts": c.get("max_conflicts", 100000), "max_restarts": c.get("max_restarts", 10000),
-                 "luby_factor": c.get("luby_factor", 100), "input": c, "internal_events": 0,
+                 "luby_factor": c.get("luby_factor", 100), "input": c, "internal_events": 0, "truncated": False,
                  "events": [{"e": what, "what": "WorkerCrash"}]}
         out.append(r)
     return out
@@ -81,6 +81,7 @@ def run(pid, tier, seed, replay=None):
     ck.extra["tlc_exported_formulas"] = len(formulas)
     # ---- random formulas (learning, backjumping, restarts fire)
     cases += drv.gen_random(rng, 400 if tier == "quick" else 6000)
+    cases += drv.gen_budget(rng, 120 if tier == "quick" else 1500)
     if tier == "thorough":
         for p, h in ((4, 3), (5, 4), (6, 5)):
             for lf in (1, 3):
